@@ -446,11 +446,9 @@ def _nearest_task(L, M, bg, single, axis, metric):
             D = [_spec_distance(col, [avl[int(m)] for m in allowed[r]], metric) for r in range(n)]
             c.prove(f"nearest_index/post:row_in_range[{label}]", A._vand(k >= 0, k < n), extra_hyps=hy)
             for s in range(n):
-                goal = True
                 for r in range(n):
                     if r != s:
-                        goal = A._vand(goal, D[s] <= D[r])
-                c.prove(f"nearest_index/post:minimises_configured_distance[{label}](row {s})", _imp(A.v_eq(k, s), goal), extra_hyps=hy)
+                        c.prove(f"nearest_index/post:minimises_configured_distance[{label}](row {s} vs {r})", _imp(A.v_eq(k, s), D[s] <= D[r]), extra_hyps=hy)
 
     return body
 
@@ -598,11 +596,9 @@ def _pillar_end_to_end(L, M, single, axis, metric):
             # ... and no allowed column is strictly closer to the input column
             D = [_spec_distance(col_in, [inv[m] for m in row], metric) for row in spec_rows]
             for s in range(len(spec_rows)):
-                goal = True
                 for r in range(len(spec_rows)):
                     if r != s:
-                        goal = A._vand(goal, D[s] <= D[r])
-                c.prove(f"PillarDiscretization/post:output_column_minimises_distance[{label}](column {spec_rows[s]})", _imp(is_row[s], goal), extra_hyps=hy)
+                        c.prove(f"PillarDiscretization/post:output_column_minimises_distance[{label}](column {spec_rows[s]} vs {spec_rows[r]})", _imp(is_row[s], D[s] <= D[r]), extra_hyps=hy)
 
     return body
 
@@ -771,6 +767,18 @@ def _grouped(parts):
     return body
 
 
+def _raised(c, e):
+    """an exception out of the repository code on a feasible path is a contract violation (the contracts
+    promise a result for every input satisfying the stated preconditions)"""
+    c.prove(f"no_exception_on_valid_input({type(e).__name__})", False)
+
+
+def STask(body, **kw):
+    kw.setdefault("on_exception", _raised)
+    kw.setdefault("max_paths", 48)
+    return Task(body, **kw)
+
+
 def _chunks(lst, n):
     for i in range(0, len(lst), n):
         yield i // n, lst[i : i + n]
@@ -786,8 +794,8 @@ def tasks(tier, seed):
     for wi, w in enumerate(width_sets):
         for g, lst in _chunks(mode_sets, 8):
             parts = [("modes=" + "".join(m[0] for m in ms) + ",widths=" + "-".join(map(str, w)) + ":", _padding_task(ms, w, sym_values=[0] * 6)) for ms in lst]
-            out[f"padding/w{'-'.join(map(str, w))}/g{g}"] = Task(_grouped(parts))
-    out["padding/defaults"] = Task(_grouped([("modes=e,widths=2,values=None:", _padding_task(("edge",), (2,), None)), ("modes=c,widths=3,values=(v,):", _padding_task(("constant",), (3,), [0]))]))
+            out[f"padding/w{'-'.join(map(str, w))}/g{g}"] = STask(_grouped(parts))
+    out["padding/defaults"] = STask(_grouped([("modes=e,widths=2,values=None:", _padding_task(("edge",), (2,), None)), ("modes=c,widths=3,values=(v,):", _padding_task(("constant",), (3,), [0]))]))
     # --- Lemma M (arbitrary padded array), one task per kernel
     for ks in KERNELS_THOROUGH if thorough else KERNELS_QUICK:
         half = [(k - 1) // 2 for k in ks]
@@ -800,7 +808,7 @@ def tasks(tier, seed):
                 if kind == "bool" and w == (10,):
                     continue
                 parts.append((f"widths={'-'.join(map(str, w))},{kind}:", _median_lemma(ks, w, kind)))
-        out[f"median/lemma/k{'x'.join(map(str, ks))}"] = Task(_grouped(parts))
+        out[f"median/lemma/k{'x'.join(map(str, ks))}"] = STask(_grouped(parts))
     # --- end to end (no cut), incl. the repository's own configurations
     e2e = [
         ((3, 3, 1), (1,), ("edge",), None, "real"),
@@ -810,8 +818,8 @@ def tasks(tier, seed):
         ((1, 3, 5), (1, 1, 1, 2, 2, 3), ("edge", "constant", "constant", "edge", "edge", "constant"), (0, 1, 1, 0, 0, 1), "bool"),
     ]
     for g, lst in _chunks(list(enumerate(e2e)), 3):
-        out[f"median/end_to_end/{g}"] = Task(_grouped([(f"cfg{i}:", _median_end_to_end(*cfg)) for i, cfg in lst]))
-    out["median/module"] = Task(_grouped([(f"repeats={r}:", _median_module(r)) for r in (1, 3)]))
+        out[f"median/end_to_end/{g}"] = STask(_grouped([(f"cfg{i}:", _median_end_to_end(*cfg)) for i, cfg in lst]))
+    out["median/module"] = STask(_grouped([(f"repeats={r}:", _median_module(r)) for r in (1, 3)]))
     # --- allowed columns (concrete enumeration)
     Lmax, Mmax = (6, 4) if thorough else (5, 4)
     combos = [(L, M, bg, s) for L in range(1, Lmax + 1) for M in range(2, Mmax + 1) for bg in range(M) for s in (False, True) if (M - 1) ** L <= 1100]
@@ -848,17 +856,17 @@ def tasks(tier, seed):
         groups.append(cur)
     for g, lst in enumerate(groups):
         parts = [(f"L{L}M{M}bg{bg}{'s' if single else 'm'},axis{axis},{metric[:4]}:", _nearest_task(L, M, bg, single, axis, metric)) for L, M, bg, single, axis, metric in lst]
-        out[f"nearest/{g:02d}"] = Task(_grouped(parts))
+        out[f"nearest/{g:02d}"] = STask(_grouped(parts))
     # --- PillarDiscretization wrapper (cut at nearest_index) and end to end
     for axis in (0, 1, 2):
         parts = []
         for L, M, bg, single in ((3, 2, None, False), (2, 3, 1, True), (3, 3, None, True), (1, 2, 1, False)):
             metric = metrics[(axis + L) % 2]
             parts.append((f"L{L}M{M}bg{bg}{'s' if single else 'm'},{metric[:4]}:", _pillar_wrapper(L, M, bg, single, axis, metric)))
-        out[f"pillar/wrapper/axis{axis}"] = Task(_grouped(parts))
+        out[f"pillar/wrapper/axis{axis}"] = STask(_grouped(parts))
     ends = [(2, 2, 2, False, metrics[1]), (0, 3, 2, False, metrics[0]), (1, 2, 3, True, metrics[1]), (2, 1, 3, False, metrics[1])]
     for g, lst in _chunks(ends, 2):
-        out[f"pillar/end_to_end/{g}"] = Task(_grouped([(f"axis{axis},L{L}M{M}{'s' if single else 'm'},{metric[:4]}:", _pillar_end_to_end(L, M, single, axis, metric)) for axis, L, M, single, metric in lst]))
+        out[f"pillar/end_to_end/{g}"] = STask(_grouped([(f"axis{axis},L{L}M{M}{'s' if single else 'm'},{metric[:4]}:", _pillar_end_to_end(L, M, single, axis, metric)) for axis, L, M, single, metric in lst]))
     # --- shim cross-check + bounded real-JAX evidence
     out["shim_crosscheck_and_real_jax_median"] = Task(_shim_and_bounded(seed, 120 if thorough else 40), modules=[])
     out["real_jax_pillars"] = Task(_bounded_pillars(seed, 60 if thorough else 20), modules=[])
@@ -876,11 +884,17 @@ def replay(key, obligation, witness):
     arrs = witness_arrays_to_numpy(w) if "arrays" in w else {}
     usable = all(a.size > 0 for a in arrs.values()) and any(k in arrs for k in ("arr", "values", "P"))
     if "arr" in w or key.startswith("allowed_columns") or usable:
-        return _replay_once(key, obligation, w, arrs, None)
+        try:
+            return _replay_once(key, obligation, w, arrs, None)
+        except Exception as e:  # noqa: BLE001
+            return True, f"the real code raises {type(e).__name__} on the witness: {str(e)[:300]}"
     rng = np.random.default_rng(24)
     detail = "no replay for this obligation"
     for t in range(120):
-        ok, detail = _replay_once(key, obligation, w, {}, rng)
+        try:
+            ok, detail = _replay_once(key, obligation, w, {}, rng)
+        except Exception as e:  # noqa: BLE001
+            ok, detail = True, f"the real code raises {type(e).__name__}: {str(e)[:300]}"
         if ok:
             return True, f"(seeded search, trial {t}) " + detail
     return False, "no small failing input found in 120 seeded trials; last: " + detail
